@@ -324,7 +324,9 @@ def run_shard(shard, tier, seed):
         run_history(rep, HIST_PATHS[shard[1]], tier)
         return rep
     elif k == "routes":
-        hops = [("bp", 3, (1, b"\x03")), ("enet", "10.11.12.13", (2, b"10.11.12.13")), (1, 0, (1, b"\x00")), ("cnet", 9, (2, b"\x09")), (2, "192.168.100.200", (2, b"192.168.100.200"))]
+        hops = [("bp", 3, (1, b"\x03")), ("enet", "10.11.12.13", (2, b"10.11.12.13")), (1, 0, (1, b"\x00")), ("cnet", 9, (2, b"\x09")), (2, "192.168.100.200", (2, b"192.168.100.200")),
+                # port numbers around the 4-bit field: 14 fits, 15 is the escape value and needs the extended form, as do 16 and 300
+                (14, 2, (14, b"\x02")), (15, 3, (15, b"\x03")), (16, "10.1.1.1", (16, b"10.1.1.1")), (300, 255, (300, b"\xff")), ("dh485-b", 5, (3, b"\x05")), ("dhrio-a", 1, (2, b"\x01"))]
         for nd in range(0, 4):
             dsegs = hops[:nd]
             dpath = "10.0.0.1" + "".join(f"/{p}/{l}" for p, l, _ in dsegs)
